@@ -159,8 +159,8 @@ def dest_grid_acked(rng: Rng, oracle):
     return s, oracle(tr, c, None), c, {}
 
 
-def source_any(rng: Rng, oracle, fault_p=0.0, **kw):
-    c = rand_cfg(rng)
+def source_any(rng: Rng, oracle, fault_p=0.0, mode=None, put_mode=None, **kw):
+    c = rand_cfg(rng, **({"mode": mode, "put_mode": put_mode} if mode else {}))
     if fault_p:
         c.faults_s = g.rand_fault_table(rng, ["POSITIVE_ACK_LIMIT_REACHED", "CHECK_LIMIT_REACHED",
                                               "CANCEL_REQUEST_RECEIVED"], p=fault_p)
@@ -256,8 +256,15 @@ PLANS = {
             ("link-faulty-after-history", 250, lambda rng: link_faulty_history(rng, lambda tr, c, r: o.o_C05(tr)))],
     "C06": [("dest-grid-acked", 1500, lambda rng: dest_grid_acked(rng, oc(o.o_C06)))],
     "C07": [("source-undisturbed", 1200, lambda rng: source_any(
-        rng, lambda tr, c, r: o.Fails(list(o.o_C07(tr, c)) + list(o.o_seglen(tr, c))), quiet=True, well_behaved=True)),
+        rng, lambda tr, c, r: o.Fails(list(o.o_C07(tr, c)) + list(o.o_seglen(tr, c))), quiet=True, well_behaved=True,
+        vary_file=0.5)),
             ("link-fault-free", 400, lambda rng: link_clean(rng, lambda tr, c, r: o.o_C07(tr, c)))],
+    # C09, EOF clause (the checksum calculation itself is suite_checksum): sender sessions with cancel
+    # requests, ACK timer expiries and several transactions on one handler whose source file is rewritten in
+    # between; acknowledged mode twice as often (the positive ACK procedure re-sends the EOF)
+    "C09": [("source-eof-checksum", 500, lambda rng: source_any(rng, ot(o.o_C09_eof), vary_file=0.5)),
+            ("source-eof-checksum-acked", 400, lambda rng: source_any(rng, ot(o.o_C09_eof), vary_file=0.5,
+                                                                      mode="A", put_mode="-"))],
     "C08": [("source-naks", 1200, lambda rng: source_any(rng, oc(o.o_C08), always_drain=True))],
     "C10": [("malformed", 1200, lambda rng: malformed(rng, c10_sig)),
             ("dest-arbitrary", 500, lambda rng: dest_any(rng, c10_sig, bad_dest=0.1)),
@@ -304,7 +311,7 @@ def replay_oracle(pid: str):
         cands = {
             "C01": lambda: o.o_C01(tr, c), "C05": lambda: o.o_C05(tr), "C06": lambda: o.o_C06(tr, c),
             "C07": lambda: o.Fails(list(o.o_C07(tr, c)) + list(o.o_seglen(tr, c))),
-            "C08": lambda: o.o_C08(tr, c), "C10": lambda: c10_sig(tr, c, None),
+            "C08": lambda: o.o_C08(tr, c), "C09": lambda: o.o_C09_eof(tr), "C10": lambda: c10_sig(tr, c, None),
             "C12": lambda: o.o_C12(tr, c), "C14": lambda: o.o_C14(tr), "C15": lambda: o.o_C15(tr),
             "C19": lambda: o.Fails(list(o.o_C19(tr)) + (list(o.o_seglen(tr, c)) if c else [])),
         }
